@@ -131,6 +131,82 @@ def padding_kernel(job):
                                              'range': 'all payload lengths L >= 0 (LIA), block size in {8,16,32,64}, header offset in {1,5}'}}
 
 
+def recv_len_concrete(L: int, bs: int, mac: int) -> bool:
+    """replay twin of the receive-length kernel: one framed packet of payload length L followed by one extra byte"""
+    from props.C10 import _Ident
+    conn = mkconn(True)
+    out = instrument(conn)
+    conn._recv_encryption = _Ident()
+    conn._recv_blocksize = bs
+    conn._recv_macsize = mac
+    conn._auth_complete = conn._kex_complete = True
+    conn._recv_handler = conn._recv_pkthdr
+    conn._send = lambda data: None
+    got = []
+    conn._packet_handlers = dict(conn._packet_handlers)
+    conn._packet_handlers[2] = lambda self, t, i, p: got.append(p.get_remaining_payload())
+    payload = Byte(2) + bytes(max(L - 1, 0))
+    deliver(conn, frame(payload, bs) + bytes(mac) + b'X')
+    return got == [payload[1:]] and conn._inpbuf == b'X' and not out.closed and not out.internal
+
+
+def recv_len_kernel(job):
+    """AST->z3: the length arithmetic of _recv_pkthdr/_recv_packet against the
+    sender's framing, for ALL payload lengths: for a packet framed as RFC 4253
+    prescribes (pktlen = 1 + L + pad, 4 + pktlen a multiple of the block size,
+    4 <= pad <= 255) the receiver consumes exactly 4 + pktlen + macsize bytes
+    (header block + remainder), the MAC slice is exactly the last macsize
+    bytes and the payload slice has length L."""
+    import ast
+    import z3
+    from vf.engine_b import SymExec, Q, mval, get_func_ast, strip_doc
+    node = get_func_ast(C.SSHConnection._recv_packet)
+    rem_stmts = [s for s in strip_doc(node.body) if isinstance(s, ast.Assign) and ast.unparse(s.targets[0]) == 'rem']
+    texts = {ast.unparse(s) for s in ast.walk(node) if isinstance(s, (ast.Assign, ast.If))}
+    need = ['rest = self._inpbuf[:rem - self._recv_macsize]', 'mac = self._inpbuf[rem - self._recv_macsize:rem]',
+            'self._inpbuf = self._inpbuf[rem:]', 'orig_payload = packet_data[1:-packet_data[0]]']
+    missing = [t for t in need if t not in texts]
+    if len(rem_stmts) != 1 or missing:
+        return {'status': 'inconclusive', 'reason': 'receive slicing statements changed: %r' % (missing or 'rem',)}
+    hdr = get_func_ast(C.SSHConnection._recv_pkthdr)
+    htexts = {ast.unparse(s) for s in ast.walk(hdr) if isinstance(s, ast.Assign)}
+    if 'self._packet = self._inpbuf[:self._recv_blocksize]' not in htexts or 'self._inpbuf = self._inpbuf[self._recv_blocksize:]' not in htexts:
+        return {'status': 'inconclusive', 'reason': 'header block statements changed'}
+    L, pad, mac = z3.Ints('L pad mac')
+    q = Q(60000)
+    vec = 0
+    samples = []
+    for bs in (8, 16, 32, 64):
+        se = SymExec()
+        pktlen = 1 + L + pad
+        se.attrs.update(_pktlen=pktlen, _recv_macsize=mac, _recv_blocksize=z3.IntVal(bs))
+        se.run(rem_stmts)
+        rem = se.env['rem']
+        pre = z3.And(L >= 0, pad >= 4, pad <= 255, mac >= 0, mac <= 64, (4 + pktlen) % bs == 0)
+        consumed = bs + rem                               # header block + remainder
+        rest_len = rem - mac                              # inpbuf[:rem - macsize]
+        data_len = (bs - 4) + rest_len                    # packet[4:] + rest
+        payload_len = data_len - 1 - pad                  # [1:-pad]
+        post = z3.And(rem >= mac, rest_len >= 0, consumed == 4 + pktlen + mac, data_len == pktlen, payload_len == L)
+        for cl, cm in ((1, 0), (7, 12), (20, 32), (300, 16)):
+            ok = recv_len_concrete(cl, bs, cm)
+            vec += 1
+            if not ok:
+                return {'status': 'cex', 'kwargs': {'L': cl, 'bs': bs, 'mac': cm}, 'reason': 'validation vector', 'queries': q.n}
+        r, m = q.check(pre, z3.Not(post))
+        if r == 'sat':
+            return {'status': 'cex', 'kwargs': {'L': min(mval(m, L), 4096), 'bs': bs, 'mac': mval(m, mac)}, 'queries': q.n, 'solver_s': q.t,
+                    'reason': 'receive length arithmetic disagrees with the framing'}
+        if r != 'unsat':
+            return {'status': 'inconclusive', 'reason': 'solver ' + r}
+        rv, mv = q.check(pre, post, L > 20)
+        if rv != 'sat':
+            return {'status': 'inconclusive', 'reason': 'vacuity witness'}
+        samples.append({'bs': bs, 'L': mval(mv, L), 'pad': mval(mv, pad), 'mac': mval(mv, mac)})
+    return {'status': 'confirmed', 'queries': q.n, 'solver_s': q.t, 'evaluations': q.n + vec, 'nontrivial': q.n + vec,
+            'sample': samples[:2], 'extra': {'validation_vectors': vec, 'range': 'all L >= 0, 4 <= pad <= 255, macsize 0..64, block size in {8,16,32,64}'}}
+
+
 def send_wire(L: int, bsi: int, etm: bool, seqi: int, t: int) -> bool:
     """send_packet: the emitted bytes decode under the independent RFC 4253
     decoder to exactly the payload, and the tag was computed with the current
@@ -246,6 +322,9 @@ OBLIGATIONS = [
     Ob('padding_kernel', padding_concrete, engine='B', solver=padding_kernel,
        functions=[C.SSHConnection.send_packet],
        bounds='all payload lengths >= 0; block size in {8,16,32,64}; header offset in {1 (ETM/AEAD), 5}: 4 <= padlen <= 255, alignment, minimum size 16'),
+    Ob('recv_len_kernel', recv_len_concrete, engine='B', solver=recv_len_kernel,
+       functions=[C.SSHConnection._recv_pkthdr, C.SSHConnection._recv_packet],
+       bounds='all payload lengths >= 0, padding 4..255, MAC size 0..64, block size in {8,16,32,64}: bytes consumed, MAC slice and payload slice'),
     Ob('send_wire', send_wire, sym=dict(L=R(0, 24), bsi=R(0, 1), etm=B, seqi=R(0, 3), t=R(0, 2)),
        shards=dict(bsi=[0, 1], etm=[True, False]), timeout=150,
        functions=[C.SSHConnection.send_packet],
